@@ -32,12 +32,16 @@ Definition salt0 : str := [].
 
 (* ---------- comparisons of observed values ---------- *)
 
-Definition privs_sub (a b : list (str * N)) : bool :=
-  forallb (fun dp => match lookup_priv b (fst dp) with Some p => p =? snd dp | None => false end) a.
+(* privilege maps compared by what lookups answer (order and shadowed bindings do not matter) *)
+Definition opt_n_eqb (a b : option N) : bool :=
+  match a, b with Some x, Some y => x =? y | None, None => true | _, _ => false end.
+
+Definition privs_eqb (a b : list (str * N)) : bool :=
+  forallb (fun dp => opt_n_eqb (lookup_priv a (fst dp)) (lookup_priv b (fst dp))) (a ++ b).
 
 Definition user_eqb (a b : user) : bool :=
   str_eqb (u_name a) (u_name b) && (u_hash a =? u_hash b) && Bool.eqb (u_admin a) (u_admin b) &&
-  privs_sub (u_privs a) (u_privs b) && privs_sub (u_privs b) (u_privs a).
+  privs_eqb (u_privs a) (u_privs b).
 
 Fixpoint list_eqb {A} (eqb : A -> A -> bool) (a b : list A) : bool :=
   match a, b with
@@ -64,7 +68,8 @@ Definition hres_eqb (a b : N * N) : bool := (fst a =? fst b) && (snd a =? snd b)
 Inductive hobs :=
 | XOp (o : mop) (ok : bool)                                          (* data.go operation at the meta store, did it succeed *)
 | XPub (users : list user) (dbs : list str) (cv : list (str * N))    (* snapshot installed: what the node now reports, cache entries *)
-| XAuth (name pw : str) (res : N) (cv : list (str * N)).             (* Client.Authenticate result (0 ok, 1 not found, 2 bad password) *)
+| XAuth (name pw : str) (res : N) (ru : option user) (cv : list (str * N)).
+    (* Client.Authenticate result (0 ok, 1 not found, 2 bad password), the user VALUE it returned, cache entries *)
 
 Inductive case :=
 | CAuthz (users : list user) (u : option user) (ss : list stmt) (db : str) (res : N)
@@ -73,7 +78,21 @@ Inductive case :=
 | CReq (bc : list (N * str)) (users : list user) (dbs : list str) (secret_set : bool) (rs : list (request * (N * N)))
 | CShow (bc : list (N * str)) (users : list user) (dbs : list str) (secret_set : bool) (cr : creds) (ss : list stmt) (db : str)
         (status : N) (visible : list str)
+| CSeq (bc : list (N * str)) (secret_set : bool) (steps : list (step * sobs))
 | CRace (bc : list (N * str)) (u1 u2 : list user) (name pw_old pw_new : str) (r_first r_old r_new : N).
+
+Definition ares_user (a : ares) : option user := match a with AOk ui => Some ui | _ => None end.
+
+Definition ret_user_eqb (a b : option user) : bool :=
+  match a, b with Some x, Some y => user_eqb x y | None, None => true | _, _ => false end.
+
+(* the user value handed out by Authenticate is the one the node's CURRENT metadata lists
+   (grants and admin flag included) *)
+Definition ret_user_current (cur : list user) (name : str) (ru : option user) : bool :=
+  match ru with
+  | None => true
+  | Some r => match find_user cur name with Some ui => user_eqb r ui | None => false end
+  end.
 
 (* ---------- histories ---------- *)
 
@@ -89,9 +108,9 @@ Fixpoint hist_agree (bc : list (N * str)) (w : world) (evs : list hobs) : bool :
       list_eqb user_eqb (c_users n') users && list_eqb str_eqb (c_dbs n') dbs &&
       view_eqb (cache_view (c_cache n')) cv &&
       hist_agree bc (mkW (w_master w) n') r
-  | XAuth name pw res cv :: r =>
+  | XAuth name pw res ru cv :: r =>
       let '(a, n') := authenticate (bc_ok bc) salted_id (w_node w) salt0 name pw in
-      (ares_code a =? res) && view_eqb (cache_view (c_cache n')) cv &&
+      (ares_code a =? res) && ret_user_eqb (ares_user a) ru && view_eqb (cache_view (c_cache n')) cv &&
       hist_agree bc (mkW (w_master w) n') r
   end.
 
@@ -102,7 +121,8 @@ Fixpoint hist_spec (bc : list (N * str)) (cur : list user) (evs : list hobs) : b
   | [] => true
   | XOp _ _ :: r => hist_spec bc cur r
   | XPub users _ _ :: r => hist_spec bc users r
-  | XAuth name pw res _ :: r => auth_obs_ok (bc_ok bc) cur name pw (res =? 0) && hist_spec bc cur r
+  | XAuth name pw res ru _ :: r =>
+      auth_obs_ok (bc_ok bc) cur name pw (res =? 0) && ret_user_current cur name ru && hist_spec bc cur r
   end.
 
 (* ---------- requests ---------- *)
@@ -123,6 +143,36 @@ Definition req_strict (users : list user) (ro : request * (N * N)) : bool :=
 
 Definition req_spec (bc : list (N * str)) (users : list user) (secret_set : bool) (ro : request * (N * N)) : bool :=
   req_loose bc users secret_set ro && req_strict users ro.
+
+(* ---------- sessions: tables, requests, user-management statements ---------- *)
+
+Definition sobs_eqb (a b : sobs) : bool :=
+  match a, b with
+  | OSet, OSet => true
+  | OReq x, OReq y => hres_eqb x y
+  | OStmt s1 e1 k1 u1, OStmt s2 e2 k2 u2 => (s1 =? s2) && (e1 =? e2) && Bool.eqb k1 k2 && list_eqb user_eqb u1 u2
+  | _, _ => false
+  end.
+
+(* the property on a recorded session; [cur] = the user table currently installed on the node
+   (as given by TSet / as the node reported after the last statement) *)
+Fixpoint seq_spec_g (strict : bool) (bc : list (N * str)) (secret_set : bool) (cur : list user) (tos : list (step * sobs)) : bool :=
+  match tos with
+  | [] => true
+  | (TSet m, _) :: r => seq_spec_g strict bc secret_set (m_users m) r
+  | (TReq rq, OReq o) :: r =>
+      req_loose bc cur secret_set (rq, o) && (negb strict || req_strict cur (rq, o)) &&
+      seq_spec_g strict bc secret_set cur r
+  | (TStmt cr ss db x, OStmt st ex ok ua) :: r =>
+      query_obs_ok (bc_ok bc) cur secret_set cr ss db ex && (negb strict || strict_bootstrap_ok cur ex) &&
+      (if ex =? 0 then list_eqb user_eqb ua cur            (* a refused request changes nothing *)
+       else if ok then stmt_effect_ok x ua else true) &&
+      seq_spec_g strict bc secret_set ua r
+  | _ :: _ => false
+  end.
+
+(* with the per-statement bootstrap clause (see known finding) *)
+Definition seq_spec := seq_spec_g true.
 
 (* ---------- metadata swap while Authenticate is in flight ---------- *)
 
@@ -161,6 +211,9 @@ Definition check_case (c : case) : N :=
       let m := fst (handle_show (bc_ok bc) salted_id true secret_set c0 salt0 cr ss db) in
       code ((fst m =? status) && list_eqb str_eqb (snd m) visible)
            (show_obs_ok (bc_ok bc) users secret_set cr visible)
+  | CSeq bc secret_set tos =>
+      let m := seq_run (bc_ok bc) salted_id true secret_set salt0 seq0 (map fst tos) in
+      code (list_eqb sobs_eqb m (map snd tos)) (seq_spec bc secret_set [] tos)
   | CRace bc u1 u2 name pw_old pw_new r0 r_old r_new =>
       let outs := map (race_outcome true bc u1 u2 name pw_old pw_new) [0%nat; 1%nat; 2%nat; 3%nat] in
       code (existsb (triple_eqb (r0, r_old, r_new)) outs)
